@@ -86,7 +86,7 @@ func (p *plan) traceCopy() []string {
 
 // ---------------------------------------------------------------- goroutine-dump classifier
 
-var lockWait = regexp.MustCompile(`\[(sync\.RWMutex\.R?Lock|sync\.Mutex\.Lock|sync\.Cond\.Wait|semacquire|sync\.WaitGroup\.Wait)(, \d+ minutes)?\]`)
+var lockWait = regexp.MustCompile(`\[(sync\.RWMutex\.R?Lock|sync\.Mutex\.Lock|sync\.Cond\.Wait|semacquire|sync\.WaitGroup\.Wait|chan send)(, \d+ minutes)?\]`)
 
 // libGoroutinesBlocked returns, for goroutines with a library frame on their stack,
 // how many there are and how many are in a lock wait.
